@@ -31,6 +31,9 @@ clauses
   tzero-energy        Temp = 0: Ek+Ep never exceeds its running minimum by more than twice the NVE fluctuation amplitude
                       of the companion run + 1e3 eps, and ends below its start
   calls               thermostat calls per integrator step: exactly 2 (first and last event of the step) iff damp is set
+  calls-resumed       the same on the engine REBUILT by run_from_checkpoint after a crash right after a checkpoint (class-level
+                      wrappers; Langevin, XL / KSA damped and undamped, surface hopping damped and undamped), plus the fd-*
+                      identity on its live coefficients and resume-parameters (damp, dt, Temp restored exactly)
 """
 import math
 
@@ -49,7 +52,7 @@ ASSUMPTIONS = ["float64 CPU", "statistical clauses: per-test alpha = 1e-12 (exac
                "kinetic temperature of the Bussi-Parrinello scheme is unbiased at step ends for harmonic modes; anharmonic / "
                "initial-transient bias is covered by the 1 % allowance (burn-in >= 8 tau)"]
 REQUIRED_MONITORS = ["identity_atoms", "identity_engines", "identity_reuse", "meanT_reused_driver", "stat_tests", "thermostat_updates", "meanT_samples", "tauinf_pairs",
-                     "tzero_hook_calls", "call_steps_damped", "call_steps_undamped"]
+                     "tzero_hook_calls", "call_steps_damped", "call_steps_undamped", "resumed_steps_damped", "resumed_steps_undamped"]
 CASE_TIMEOUT = 1500.0
 BUDGET_S = {"quick": 200, "thorough": 1700}
 ALPHA = 1e-12
@@ -116,7 +119,11 @@ def gen_cases(tier, seed):
         for damp in ((None, 7.0) if eng not in ("basic", "langevin") else ((None,) if eng == "basic" else (7.0,))):
             cases.append({"kind": "calls", "engine": eng, "damp": damp, "steps": 3, "mols": ["H2O", "CH2O"] if eng != "sh" else ["CH2O"],
                           "seed": s(), "geom_seed": s()})
-    order = {"meanT": 0, "tzero": 1, "tauinf": 2, "identity": 3, "ensemble": 4, "calls": 5}
+    for eng, damps in (("langevin", (6.0,)), ("xl", (6.0, None)), ("ksa", (9.0, None)), ("sh", (6.0, None))):
+        for damp in damps:
+            cases.append({"kind": "resumed", "engine": eng, "damp": damp, "steps": 5, "ckpt": 2, "T": 250.0, "dt": 0.3,
+                          "mols": ["H2O", "CH2O"] if eng != "sh" else ["CH2O"], "seed": s(), "geom_seed": s()})
+    order = {"meanT": 0, "tzero": 1, "tauinf": 2, "identity": 3, "ensemble": 4, "calls": 5, "resumed": 5}
     cases.sort(key=lambda c: order[c["kind"]])
     return cases
 
@@ -343,8 +350,8 @@ def _ensemble(case):
                 obs["worst_z"] = max(obs["worst_z"], abs(zscore))
                 det = {"engine": eng, "dt": dt, "tau": tau, "T": T, "T0": T0, "update": n, "element": int(z), "N": N,
                        "stat_over_N": stat / N, "chi2_window_over_N": [lo / N, hi / N], "z": zscore}
-                m_ = max((stat - N) / (hi - N), (N - stat) / (N - lo))
-                acc.upd("ou-chi2", max(m_, 0.0), 1.0, det)
+                m_ = float(np.max(np.array([(stat - N) / (hi - N), (N - stat) / (N - lo)])))  # np.max propagates NaN
+                acc.upd("ou-chi2", 0.0 if m_ <= 0.0 else m_, 1.0, det)
                 zm = float((np.sqrt(mz) * vv).sum() / math.sqrt(N * kb * Tn))
                 acc.upd("ou-mean", abs(zm), Z_MEAN, dict(det, z_mean=zm))
                 ntests += 2
@@ -360,7 +367,7 @@ def _ensemble(case):
         md0._apply_langevin_thermostat(ns)
         acc.mon["thermostat_updates"] += 1
         ek2 = (mrow * ns.velocities.numpy() ** 2).sum(axis=(2, 3))
-        acc.flag("ou-T0-heating", bool(np.any(ek2 > ek)), {"update": n, "max_increase": float((ek2 - ek).max())})
+        acc.flag("ou-T0-heating", not bool(np.all(ek2 <= ek)), {"update": n, "max_increase": float((ek2 - ek).max())})
         ek = ek2
     acc.mon["stat_tests"] += ntests
     obs.update({"tests": ntests, "rows": R, "engine": eng, "c1_live": float(mdo.langevin_c1), "c1_ref": math.sqrt(c1_ref2)})
@@ -514,7 +521,7 @@ def _tzero(case):
             v1 = molecule.velocities.detach().cpu().numpy()
             e1 = (mass[..., None] * v1 * v1).sum(axis=(1, 2))
             hook["calls"] += 1
-            if np.any(e1 > e0):
+            if not np.all(e1 <= e0):  # NaN counts as an increase
                 hook["bad"].append(float((e1 - e0).max()))
             return r
 
@@ -536,7 +543,7 @@ def _tzero(case):
         tol = 2.0 * amp + 1e3 * 1e-10
         runmin = np.minimum.accumulate(El)
         rise = float((El[1:] - runmin[:-1]).max())
-        acc.upd("tzero-energy", max(rise, 0.0), tol, {"mol": k, "nve_amplitude": amp, "tau": case["tau"]})
+        acc.upd("tzero-energy", 0.0 if rise <= 0.0 else rise, tol, {"mol": k, "nve_amplitude": amp, "tau": case["tau"]})
         acc.flag("tzero-removed", not (El[-1] < El[0]), {"mol": k, "E0": float(El[0]), "Eend": float(El[-1])})
         obs["mol%d" % k] = {"removed_eV": float(El[0] - El[-1]), "max_rise": rise, "nve_amp": amp}
     acc.cells.append("tzero/tau%g" % case["tau"])
@@ -598,7 +605,121 @@ def _calls(case):
     return acc.result(len(steps) > 0, {"engine": eng, "damp": damp, "per_step_events": ["".join(e) for e in steps]})
 
 
+class _SimulatedCrash(RuntimeError):
+    pass
+
+
+def _resumed(case):
+    """run with checkpoints, crash by exception right after a checkpoint, run_from_checkpoint; the REBUILT engine (class-level
+    wrappers) must make exactly two thermostat calls per step iff the original run was damped, with exact live coefficients."""
+    import seqm.MolecularDynamics as MD
+    from seqm.NonadiabaticDynamics import NonadiabaticDynamicsBase, SurfaceHoppingDynamics
+    from vlib import env, md
+
+    acc = _Acc()
+    eng, damp = case["engine"], case["damp"]
+    g = np.random.default_rng(case["geom_seed"])
+    S, C, Zs = _batch(case["mols"], g)
+    sett, xl = _engine_args(eng, "AM1")
+    events, seen = [], {}
+    classes = [c for c in (MD.Molecular_Dynamics_Basic, MD.Molecular_Dynamics_Langevin, MD.XL_BOMD, MD.KSA_XL_BOMD, MD.XL_ESMD,
+                           NonadiabaticDynamicsBase, SurfaceHoppingDynamics)]
+    saved = []
+
+    def wrap_step(cls):
+        orig = cls.__dict__["_do_integrator_step"]
+
+        def step(self_, i, molecule, *a, **k):
+            events.append(("S", i))
+            seen["obj"], seen["mol"] = self_, molecule
+            return orig(self_, i, molecule, *a, **k)
+
+        saved.append((cls, "_do_integrator_step", orig))
+        cls._do_integrator_step = step
+
+    def wrap_thermo(cls):
+        orig = cls.__dict__["_apply_langevin_thermostat"]
+
+        def thermo(self_, molecule):
+            events.append(("T", None))
+            return orig(self_, molecule)
+
+        saved.append((cls, "_apply_langevin_thermostat", orig))
+        cls._apply_langevin_thermostat = thermo
+
+    obs = {"engine": eng, "damp": damp}
+    try:
+        for c in classes:
+            if "_do_integrator_step" in c.__dict__:
+                wrap_step(c)
+            if "_apply_langevin_thermostat" in c.__dict__:
+                wrap_thermo(c)
+        with env.Scratch("c12") as d, md.quiet():
+            out = md.output_cfg(d + "/r", list(range(len(S))), checkpoint=case["ckpt"])
+            mol, mdo = md.build_md(eng, S, C, sett, case["dt"], case["T"], out, damp=damp, xl=xl)
+            orig_save = mdo.save_checkpoint
+
+            def save_and_crash(*a, **k):
+                orig_save(*a, **k)
+                raise _SimulatedCrash("crash right after the checkpoint")
+
+            mdo.save_checkpoint = save_and_crash
+            try:
+                mdo.run(mol, steps=case["steps"], reuse_P=True, remove_com=None, seed=case["seed"])
+                return {"inconclusive": "the run did not reach a checkpoint"}
+            except _SimulatedCrash:
+                pass
+            first_leg = list(events)
+            del events[:]
+            seen.clear()
+            loader = SurfaceHoppingDynamics if eng == "sh" else MD.Molecular_Dynamics_Basic
+            try:
+                loader.run_from_checkpoint(d + "/r.restart.pt")
+            except Exception as exc:
+                acc.flag("resume-raised", True, {"engine": eng, "damp": damp, "error": "%s: %s" % (type(exc).__name__, str(exc)[:300])})
+                return acc.result(False, obs)
+            robj, rmol = seen.get("obj"), seen.get("mol")
+            if robj is None or robj is mdo:
+                return {"inconclusive": "no integrator step observed on a rebuilt engine"}
+            obs["resumed_class"] = type(robj).__name__
+            obs["resumed_damp"] = getattr(robj, "damp", "missing")
+            if damp is not None:
+                if hasattr(robj, "langevin_c1") and getattr(robj, "damp", None) is not None:
+                    _check_identity(acc, robj, rmol, float(robj.timestep), float(robj.damp), float(robj.Temp), eng + "/resumed")
+                    acc.upd("resume-parameters", max(abs(float(robj.damp) / damp - 1.0), abs(float(robj.timestep) / case["dt"] - 1.0),
+                                                     abs(float(robj.Temp) / case["T"] - 1.0)), 1e-12,
+                            {"damp": [damp, float(robj.damp)], "dt": [case["dt"], float(robj.timestep)], "T": [case["T"], float(robj.Temp)]})
+                else:
+                    acc.flag("resume-thermostat-state", True, {"engine": eng, "original_damp": damp, "resumed_damp": getattr(robj, "damp", "missing"),
+                                                                "has_coefficients": hasattr(robj, "langevin_c1")})
+    finally:
+        for cls, name, orig in saved:
+            setattr(cls, name, orig)
+    steps, cur = [], None
+    for e in events:
+        if e[0] == "S":
+            cur = []
+            steps.append(cur)
+        elif cur is not None:
+            cur.append(e[0])
+    want = 2 if damp is not None else 0
+    for i, evs in enumerate(steps):
+        nT = evs.count("T")
+        bad = nT != want or (want == 2 and not (evs[0] == "T" and evs[-1] == "T"))
+        acc.flag("calls-resumed", bad, {"engine": eng, "original_damp": damp, "resumed_step": i, "events": "".join(evs), "thermostat_calls": nT,
+                                        "expected": want})
+        acc.mon["resumed_steps_damped" if want else "resumed_steps_undamped"] += 1
+    n_first = sum(1 for e in first_leg if e[0] == "S")
+    if len(steps) + n_first != case["steps"]:
+        acc.flag("calls-resumed", True, {"engine": eng, "steps_first_leg": n_first, "steps_resumed": len(steps), "planned": case["steps"]})
+    acc.cells.append("resumed/%s/%s" % (eng, "damped" if want else "undamped"))
+    obs["per_step_events_resumed"] = ["".join(e) for e in steps]
+    return acc.result(len(steps) > 0, obs)
+
+
 def run_case(case):
+    if case["kind"] == "resumed":
+        return _resumed(case)
     return {"identity": _identity, "ensemble": _ensemble, "meanT": _meanT, "tauinf": _tauinf, "tzero": _tzero,
             "calls": _calls}[case["kind"]](case)
 
@@ -624,7 +745,7 @@ def summarize(cases, results, report):
         m = abs(ratio - 1.0) / tol
         key = "meanT-pooled" if name == "all" else "meanT-pooled-" + name
         report.margins[key] = {"worst": m, "case": "pooled", "n": 1}
-        if m > 1.0 and first is not None:
+        if not (m <= 1.0) and first is not None:
             report.violations.append((first[0], {"clause": key, "mech": None,
                                                  "detail": {"pooled_ratio": ratio, "tolerance": tol, "group": name}}, first[1].get("obs")))
     ntests = report.monitors.get("stat_tests", 0) + 4 * sum(1 for c in cases if c.get("kind") == "meanT") + len(tot)
